@@ -17,7 +17,7 @@ ALL_SHAPES = list(session.SHAPES)
 
 def _one_shape(args):
     """One worker: TLC (properties + graph export) once for the shape, then replay under each strategy."""
-    (shape, level, nbeh, seed, strategies, scratch_dir, workers, nsim, sim_depth, sys_depth, sys_budget) = args
+    (shape, level, nbeh, seed, strategies, scratch_dir, workers, nsim, sim_depth, sys_depth, sys_budget, deep_props) = args
 
     class _Scratch:
         dir = scratch_dir
@@ -37,10 +37,11 @@ def _one_shape(args):
         glevel = min(level, 4)
         nodes, edges, inits, res = tlc.dump_graph('PonySession', session.cfg_props(shape, glevel), ctx.scratch,
                                                   tag='PonySession-%s' % shape, workers=workers)
-        if level > glevel:
-            # thorough tier: the specification's own properties one level deeper than the exported graph (the state
-            # graph of level 5 has 3.6 M states over the eleven shapes: exporting it costs more than it adds, the deep
-            # behaviours come from the systematic enumeration and from tlc -simulate)
+        if level > glevel and deep_props:
+            # thorough tier: the specification's own properties one level deeper than the exported graph, on the shapes
+            # this property's quick tier uses (the state graph of level 5 has 3.6 M states over the eleven shapes:
+            # exporting it costs more than it adds, the deep behaviours come from the systematic enumeration and from
+            # tlc -simulate; together the nine properties cover every shape at level 5)
             res = tlc.model_check('PonySession', session.cfg_props(shape, level), ctx.scratch,
                                   tag='PonySessionProps-%s' % shape, workers=workers)
         level = glevel
@@ -138,7 +139,9 @@ def run(ctx, prop, shapes=None, strategies=('default',), focus=None):
     if len(strategies) > 1:
         nbeh = nbeh // 2
         nsim = nsim // 3
-    jobs = [(shape, level, nbeh, ctx.seed * 1000 + i * 10, tuple(strategies), ctx.scratch.dir, 4 if quick else 2, nsim, 14 if quick else 20, 3 if quick else 4, 20 if quick else 180) for i, shape in enumerate(shapes)]
+    jobs = [(shape, level, nbeh, ctx.seed * 1000 + i * 10, tuple(strategies), ctx.scratch.dir, 4 if quick else 2, nsim, 14 if quick else 20, 3 if quick else 4, 20 if quick else 180,
+             shape in QUICK_SHAPES.get(prop, ()))      # thorough: the level-5 check of the specification on this property's own shapes
+            for i, shape in enumerate(shapes)]
     mp = multiprocessing.get_context('fork')
     with mp.Pool(min(len(jobs), 8)) as pool:
         results = [r for rs in pool.map(_one_shape, jobs) for r in rs]
@@ -215,6 +218,8 @@ def run(ctx, prop, shapes=None, strategies=('default',), focus=None):
         'free_reads': sum(r['stats'].get('free_reads', 0) for r in results),
         'shapes': sorted(set(r['shape'] for r in results)), 'strategies': list(strategies),
         'max_level': level,
+        'per_shape': [{'shape': r['shape'], 'strategy': r['strategy'], 't_tlc_s': r.get('t_tlc'), 't_replay_s': r.get('t_replay'),
+                       'behaviours': r['stats']['behaviours'], 'systematic_sequences': r.get('sys_sequences', 0)} for r in results],
         'distinct_nontrivial_rule': rule,
         'nontrivial_behaviours': nontrivial.get(key, behaviours) if key else behaviours,
         'comparisons': {k: agg.get(k, 0) for k in ('commits_compared', 'projections', 'failures_checked', 'reads_compared',
